@@ -270,12 +270,25 @@ def rename_source(source: str, mapping: dict[str, str]) -> str:
 	return out
 
 
+def prefix_aliased(source: str) -> set[str]:
+	"""Classes / functions decorated `@Embed.alias('Pre', prefix=True)`: tranp emits the DERIVED identifier `Pre` + name, which a
+	token-wise rewriting of the output cannot follow — such names are outside a renaming's domain."""
+	out: set[str] = set()
+	for node in ast.walk(ast.parse(source)):
+		if isinstance(node, (ast.ClassDef, ast.FunctionDef)):
+			for d in node.decorator_list:
+				if isinstance(d, ast.Call) and isinstance(d.func, ast.Attribute) and d.func.attr == 'alias' and (len(d.args) + len(d.keywords)) >= 2:
+					out.add(node.name)
+	return out
+
+
 def renaming_domain(source: str, reserved: Reserved) -> dict[str, str]:
 	"""The identifiers of a program a renaming may touch: user identifiers that are not reserved, that the emitter cannot
 	produce on its own, and that do not occur inside data strings or comments."""
 	vocab = emitter_vocabulary()
 	strings = data_string_words(source)
-	return {n: k for n, k in user_identifiers(source).items() if not reserved.is_reserved(n) and n not in vocab and n not in strings}
+	derived = prefix_aliased(source)
+	return {n: k for n, k in user_identifiers(source).items() if not reserved.is_reserved(n) and n not in vocab and n not in strings and n not in derived}
 
 
 # ---------------------------------------------------------------------------------------------
@@ -501,6 +514,7 @@ class NestGen:
 		self.funcs: list[FuncSig] = []
 		self.module_vars: list[tuple[str, str]] = []
 		self.applier: str | None = None
+		self.alias_seq = 0
 		self.hist: dict[str, int] = {}
 
 	def count(self, k: str) -> None:
@@ -817,7 +831,17 @@ class NestGen:
 			cls.qual = f'{nested_in.qual}.{cls.name}'
 		ind = 1 if nested_in else 0
 		pad = '\t' * ind
-		lines = [f"{pad}class {cls.name}{f'({base.qual})' if base else ''}:"]
+		lines = []
+		if r.random() < 0.15:
+			# the emitted class name comes from the decorator (text) or is derived from it (prefix)
+			self.alias_seq += 1
+			if r.random() < 0.6:
+				lines.append(f"{pad}@Embed.alias('Alias{self.alias_seq}9')")
+				self.count('decl:class:alias')
+			else:
+				lines.append(f"{pad}@Embed.alias('Pre{self.alias_seq}9', prefix=True)")
+				self.count('decl:class:alias-prefix')
+		lines.append(f"{pad}class {cls.name}{f'({base.qual})' if base else ''}:")
 		twin: str | None = None
 		more = [n for n, t in self.module_vars if t != 'int']
 		if nested_in is None and more and r.random() < 0.45:
@@ -907,7 +931,7 @@ class NestGen:
 
 	def program(self) -> str:
 		r = self.rng
-		lines = ['from typing import ClassVar', 'from enum import Enum', 'from collections.abc import Callable', '']
+		lines = ['from typing import ClassVar', 'from enum import Enum', 'from collections.abc import Callable', 'from rogw.tranp.compatible.python.embed import Embed', '']
 		if r.random() < 0.65:
 			en = self.names.cls()
 			members = [self.names.cls() for _ in range(r.randint(2, 4))]
